@@ -18,13 +18,14 @@ import FpDriver.Header
 import FpDriver.Primary
 import FpDriver.Incl08
 import FpDriver.Rest
+import FpDriver.Print
 
 /-! dispatcher: one handler per model; each handler lives in FpDriver/<Model>.lean -/
 namespace FpDriver
 open Fp.Wire
 
 def handlers : List (String → List String → Option String) :=
-  [FpDriver.Splitline.handle, FpDriver.Norm.handle, FpDriver.Expr.handle, FpDriver.SymTree.handle, FpDriver.Reader.handle, FpDriver.Block.handle, FpDriver.ExprLex.handle, FpDriver.Combi.handle, FpDriver.Cpp.handle, FpDriver.One2.handle, FpDriver.SymGlue.handle, FpDriver.Tree3.handle, FpDriver.Decl.handle, FpDriver.One3.handle, FpDriver.IoStmt.handle, FpDriver.Header.handle, FpDriver.Primary.handle, FpDriver.Incl08.handle, FpDriver.Rest.handle]
+  [FpDriver.Splitline.handle, FpDriver.Norm.handle, FpDriver.Expr.handle, FpDriver.SymTree.handle, FpDriver.Reader.handle, FpDriver.Block.handle, FpDriver.ExprLex.handle, FpDriver.Combi.handle, FpDriver.Cpp.handle, FpDriver.One2.handle, FpDriver.SymGlue.handle, FpDriver.Tree3.handle, FpDriver.Decl.handle, FpDriver.One3.handle, FpDriver.IoStmt.handle, FpDriver.Header.handle, FpDriver.Primary.handle, FpDriver.Incl08.handle, FpDriver.Rest.handle, FpDriver.Print.handle]
 
 def dispatch (line : String) : String :=
   match fields line with
